@@ -308,6 +308,18 @@ func (e *Env) LifetimeOracle() []Finding {
 			for _, in := range c.Outs {
 				delivered += len(ho[in])
 			}
+			if delivered > 1 {
+				// one constructor run per request site: a single invocation (of a multi-output
+				// constructor) must not serve two sites with its different outputs
+				var w []string
+				for _, in := range c.Outs {
+					for _, h := range ho[in] {
+						w = append(w, in.Label()+" -> "+h.Where)
+					}
+				}
+				out = append(out, Finding{feat("clause", "transient-invocation-served-several-sites", "form", regForm(r)),
+					fmt.Sprintf("transient %s: invocation #%d served %d request sites: %s", r, c.Serial, delivered, strings.Join(w, "; "))})
+			}
 			if delivered == 0 && len(c.Outs) > 0 && !e.inFailedOp(c) {
 				out = append(out, Finding{feat("clause", "transient-constructed-not-delivered", "form", regForm(r)),
 					fmt.Sprintf("transient %s constructed (%s) but none of its outputs was handed to a request site", r, c.Outs[0].Label())})
